@@ -5,7 +5,6 @@ import operator
 import re
 
 from flow.record.base import DynamicFieldtypeModule, GroupedRecord, Record, dynamic_fieldtype
-from flow.record.fieldtypes import net
 from flow.record.whitelist import WHITELIST, WHITELIST_TREE
 
 try:
@@ -357,8 +356,8 @@ class CompiledSelector:
         self.expression = expression or None
         self.code = None
         self.ns = {func.__name__: func for func in FUNCTION_WHITELIST}
-        self.ns["net"] = net
-        # the other whitelisted field types, resolved like the interpreted engine does: string('x'), varint(3), ...
+        # the whitelisted field types, resolved like the interpreted engine does (and, like there, independent of which
+        # fieldtypes submodules happen to be imported already): net.ipaddress(..), net.ipv4.Subnet(..), string('x'), ...
         for root in WHITELIST_TREE:
             self.ns.setdefault(root, getattr(dynamic_fieldtype, root))
 
